@@ -32,7 +32,12 @@ type (
 )
 
 const (
-	cPipesFileName = "pipes.dat"
+	// cPipesFileName is the file with the pipes' definitions. A pipe keeps its positions in the file
+	// pipe<escaped name>.dat of the same folder, so the name must not have that form: the definitions used to be in
+	// pipes.dat, which is the file of a pipe with the name "s" as well
+	cPipesFileName = "registry.dat"
+	// cOldPipesFileName is where the definitions are read from, if there is no cPipesFileName yet
+	cOldPipesFileName = "pipes.dat"
 )
 
 func newPersister(dir string) *persister {
@@ -46,6 +51,11 @@ func (sp *persister) loadPipes() ([]Pipe, error) {
 	fn := path.Join(sp.dir, cPipesFileName)
 	sp.logger.Info("Loading list of pipes from ", fn)
 	_, err := os.Stat(fn)
+	if os.IsNotExist(err) {
+		// written by a version, which kept the definitions in pipes.dat?
+		fn = path.Join(sp.dir, cOldPipesFileName)
+		_, err = os.Stat(fn)
+	}
 	if os.IsNotExist(err) {
 		sp.logger.Warn(" file ", fn, " doesn't exist. Returning empty list ")
 		return nil, nil
@@ -64,6 +74,12 @@ func (sp *persister) loadPipes() ([]Pipe, error) {
 	}
 
 	sp.logger.Info("Read information about ", len(res), " streams")
+	if fn != path.Join(sp.dir, cPipesFileName) {
+		// move the definitions to their new place now: pipes.dat can be overwritten by a pipe "s" at any moment
+		if err = sp.savePipes(res); err != nil {
+			return nil, err
+		}
+	}
 	return res, nil
 }
 
@@ -74,7 +90,7 @@ func (sp *persister) savePipes(pps []Pipe) error {
 		return errors.Wrapf(err, "could not marshal ppipes ")
 	}
 
-	// write aside and rename: pipes.dat is never half-written
+	// write aside and rename: the file is never half-written
 	tmpFn := fn + ".tmp"
 	if err = ioutil.WriteFile(tmpFn, data, 0640); err != nil {
 		return errors.Wrapf(err, "could not write file %s ", tmpFn)
